@@ -877,7 +877,7 @@ def atomic_write_if_changed(path, text):
     return True
 
 
-def generate():
+def generate(out_path=None):
     dpath = os.path.join(PKG, "circuit", "_decompose.py")
     cpath = os.path.join(PKG, "circuit", "circuit.py")
     defs, table, passes = translate_decompose(dpath)
@@ -912,7 +912,7 @@ def generate():
     except Refuse as e:
         raise Broken("translator:emit", str(e))
     text = "\n".join(out) + "\n"
-    atomic_write_if_changed(os.path.join(COQ, "Gen", "Decompose.v"), text)
+    atomic_write_if_changed(out_path or os.path.join(COQ, "Gen", "Decompose.v"), text)
     return dict(rules=sorted(defs), table=dict(table), passes={k: [n for n, _ in v] for k, v in passes.items()},
                 elim=[n for n, _ in r["elim"]], marker_to_temp=r["to_temp"], str_basis_listified=r["listified"],
                 rot_normalised=r["rot_norm"], order=r["order"],
